@@ -265,6 +265,21 @@ pub fn check_image<K: HKey>(
             out.push((vec!["C03"], format!("recovery-open-failed/{}", class.replace(' ', "-")), format!("open after crash failed: {e}")));
         }
         Ok((cas, stats)) => {
+            // C20 across the recovery: what the open left on disk (after-replay snapshot + remaining log), decoded independently,
+            // still equals the acknowledged history (with or without the in-flight operation)
+            match ondisk::decode_disk(&crate::seq::load_top(&dir2), n).and_then(|d| d.replay()) {
+                Err(e) => out.push((vec!["C20"], "after-recovery-malformed".into(), e)),
+                Ok(got) => {
+                    if got != key_map(m0) && m1.map_or(true, |m| got != key_map(m)) {
+                        out.push((vec!["C20"], "after-recovery-disk-vs-acked".into(), format!(
+                            "after the recovering open, snapshot+log decode to {:?}; acknowledged {:?}; with in-flight {:?}",
+                            got.iter().map(|(k, (h, _))| (util::show(k), hex(&h[..3]))).collect::<Vec<_>>(),
+                            key_map(m0).iter().map(|(k, (h, _))| (util::show(k), hex(&h[..3]))).collect::<Vec<_>>(),
+                            m1.map(|m| key_map(m).iter().map(|(k, (h, _))| (util::show(k), hex(&h[..3]))).collect::<Vec<_>>())
+                        )));
+                    }
+                }
+            }
             let mut f0 = Vec::new();
             real::check_reads(&cas, m0, ctx.universe, &mut f0);
             let mut chosen: Option<&Model<K>> = if f0.is_empty() { Some(m0) } else { None };
@@ -554,6 +569,8 @@ pub fn big_alphabet() -> Vec<Op> {
     use crate::keys::*;
     vec![
         Op::Put { k: BIG, c: C_X, ch: 0 },
+        // a log record above 64 KiB
+        Op::Put { k: HUGE, c: C_X, ch: 0 },
         Op::Put { k: 0, c: C_L, ch: 0 },
         Op::Put { k: 1, c: C_X, ch: 0 },
         Op::Remove { k: BIG },
